@@ -23,7 +23,7 @@ def parseOp (names : List String) (ws : List String) : Op :=
   | ["mapm", s, f] => .map (r s) f .mat
   | ["mapp", s, f, n] => .map (r s) f (.procs (toNat! n))
   | ["mapx", s, f] => .map (r s) f .excl
-  | ["count", s, c] => .count (r s) (toNat! c)
+  | ["count", s, c] | ["countm", s, c] => .count (r s) (toNat! c)
   | ["filter", s, p] => .filter (r s) p
   | ["flatmap", s, g] => .flatmap (r s) g
   | ["fold", s] => .fold (r s)
